@@ -178,6 +178,9 @@ package destination
 //@   ensures[buf_kept]  buf[..] == old(buf[..])
 //@
 //@ // ---------------------------------------------------------------- keepsafe.go (C07): what may have to be re-sent
+//@ // the two generations never share storage (otherwise adding to the recent one overwrites the old one);
+//@ // every method of keepSafe re-establishes this before it releases the lock, the connection's loop relies on it
+//@ spec keepSafeInv(k *keepSafe) bool := k.safeOld.arr != k.safeRecent.arr || k.safeOld.arr == 0
 //@ func (k *keepSafe) Add(buf []byte)
 //@   property C07
 //@   requires !k.Mutex.held && (k.safeOld.arr != k.safeRecent.arr || k.safeOld.arr == 0)
@@ -186,6 +189,7 @@ package destination
 //@        && (forall j int :: 0 <= j && j < old(len(k.safeRecent)) ==> k.safeRecent[j] == old(k.safeRecent[j]))
 //@   ensures[old_kept; C07] k.safeOld == old(k.safeOld) && (forall j int :: 0 <= j && j < len(k.safeOld) ==> k.safeOld[j] == old(k.safeOld[j]))
 //@   ensures[recent_array] k.safeRecent.arr == old(k.safeRecent.arr) || fresh(k.safeRecent)
+//@   ensures[separate_buffers; C07] keepSafeInv(k)
 //@   ensures[unlocked] !k.Mutex.held && k.closed == old(k.closed) && k.initialCap == old(k.initialCap)
 //@
 //@ func (k *keepSafe) GetAll() [][]byte
@@ -196,6 +200,7 @@ package destination
 //@        && (forall j int :: 0 <= j && j < old(len(k.safeOld)) ==> result[j] == old(k.safeOld[j]))
 //@        && (forall j int :: 0 <= j && j < old(len(k.safeRecent)) ==> result[old(len(k.safeOld)) + j] == old(k.safeRecent[j]))
 //@   ensures[emptied; C07] len(k.safeOld) == 0 && len(k.safeRecent) == 0 && !k.Mutex.held
+//@   ensures[separate_buffers; C07] keepSafeInv(k) || k.initialCap == 0
 //@
 //@ // ---------------------------------------------------------------- conn.go: the connection's event loop (C05, C07)
 //@ func (c *Conn) close()
@@ -250,6 +255,7 @@ package destination
 //@   loop 1:
 //@     invariant[wf] !k.Mutex.held && k.initialCap >= 0 && k.closed != nil && tick != nil && tick.C != nil
 //@   branch "<-tick.C":
+//@     ensures[separate_buffers; C07] keepSafeInv(k) || k.initialCap == 0
 //@     ensures[recent_survives_a_tick; C07] forall j int :: 0 <= j && j < old(len(k.safeRecent)) ==> (exists i int :: 0 <= i && i < len(k.safeOld) && k.safeOld[i] == old(k.safeRecent[j]))
 //@
 //@ // Ingest: the redo lines go to the spool's bulk input, all of them, in order (ingested(n): the log after n lines)
